@@ -32,6 +32,7 @@ from sigma.rule import SigmaDetectionItem, SigmaRule
 from sigma.correlations import SigmaCorrelationRule
 from sigma.processing.transformations.base import PreprocessingTransformation, Transformation
 from sigma.processing.postprocessing import (
+    NestedQueryPostprocessingTransformation,
     QueryPostprocessingTransformation,
     query_postprocessing_transformations,
 )
@@ -353,6 +354,22 @@ class ProcessingItemBase:
         if issubclass(transformation_class, TemplateBase):
             params["allow_template_vars"] = allow_template_vars
             params["vars_allowed_paths"] = vars_allowed_paths
+        if issubclass(transformation_class, NestedQueryPostprocessingTransformation) and isinstance(
+            params.get("items"), list
+        ):
+            # nested items are loaded under the same opt-in and path restrictions as their parent
+            params["items"] = [
+                (
+                    QueryPostprocessingItem.from_dict(
+                        item,
+                        allow_template_vars=allow_template_vars,
+                        vars_allowed_paths=vars_allowed_paths,
+                    )
+                    if isinstance(item, dict)
+                    else item
+                )
+                for item in params["items"]
+            ]
         if issubclass(transformation_class, ExternalSourceBaseTransformation):
             params["allow_external_sources"] = allow_external_sources
         try:
